@@ -47,7 +47,7 @@ JumpsArePositions(c) ==
         /\ Doc(c)[r].ops[i].jump = PositionOf(Api(c), Api(c)[r][i].tgt)
 
 Init == cid \in 1..Len(Cases) /\ phase = "start" /\ st = "ok"
-RunCompile == /\ phase = "start" /\ st = "ok" /\ Cases[cid].kind = "compile"
+RunCompile == /\ phase = "start" /\ st = "ok" /\ Cases[cid].kind \in {"compile", "compile-only"}
               /\ phase' = IF Cases[cid].apiStatus = "ok" /\ Cases[cid].inputOk THEN "compiled" ELSE "done"
               \* success = the source is accepted AND the invocation is as documented (settings document complete, files readable)
               /\ st' = IF (Cases[cid].compileExit = 0) # (Cases[cid].apiStatus = "ok" /\ Cases[cid].inputOk) THEN "exit-status-does-not-reflect-success"
@@ -57,7 +57,8 @@ ReadDocument == /\ phase = "compiled" /\ st = "ok"
                 /\ phase' = "read"
                 /\ st' = IF ~ShapeOk(cid) THEN "document-structure" ELSE IF ~JumpsArePositions(cid) THEN "jump-parameter-is-not-a-position" ELSE "ok"
                 /\ UNCHANGED cid
-RunDecompile == /\ st = "ok" /\ (phase = "read" \/ (phase = "start" /\ Cases[cid].kind = "decompile"))
+\* kind "compile-only": a compile run whose document is not fed to the decompile command (runs with --lookup and imports)
+RunDecompile == /\ st = "ok" /\ ((phase = "read" /\ Cases[cid].kind # "compile-only") \/ (phase = "start" /\ Cases[cid].kind = "decompile"))
                 /\ phase' = "done"
                 /\ st' = IF Cases[cid].inputOk /\ Cases[cid].decompileExit # 0 THEN "decompile-command-rejects-document"
                          ELSE IF ~Cases[cid].inputOk /\ Cases[cid].decompileExit = 0 THEN "decompile-exit-0-on-invalid-document" ELSE "ok"
